@@ -108,7 +108,7 @@ Theorem batch_rejected_no_trace c reqs :
   fst (batch_write lang_match flavour c reqs) = c /\ res_ok (o_res (snd (batch_write lang_match flavour c reqs))) = false.
 Proof.
   intros Hf H. unfold batch_write. destruct (v1_empty_batch flavour c reqs); [split; reflexivity|].
-  unfold batch_write_core. rewrite Hf.
+  unfold batch_write_core, forced_blocks. rewrite Hf. cbv iota.
   destruct (negb (forallb wreq_ok (flat_map snd reqs))); [split; reflexivity|].
   destruct (Nat.ltb batch_limit (List.length (flat_map snd reqs))); [split; reflexivity|].
   cbn in H. destruct (flat_map (prevalidate_table c) reqs); [discriminate|]. split; reflexivity.
